@@ -59,5 +59,6 @@ fn parse_comment<'n>(node: Node<'n, 'n>) -> Option<String> {
 }
 
 pub fn xml_name_to_rust_name(xml_name: &str) -> String {
-    to_pascal_case(xml_name)
+    // `Self` is the one keyword a PascalCase name can turn into
+    crate::model::field::rename_keywords(&to_pascal_case(xml_name)).to_string()
 }
